@@ -1,1 +1,95 @@
-From Servitor Require Import Base.
+(* C08 - UI state is race-free and deadlock-free under concurrent keys, resizes and loads. (PARTIAL)
+   General theorems about the lock-discipline checker of Conc.v.  The instance for the CURRENT
+   ui/ui.go - lock_check ui_prog = true, calls_terminate ui_prog, and the corollaries ui_safety
+   and ui_progress - is re-derived on every run in gen/UiProg.v, which tools/xlate regenerates
+   from the source.  Outside the model: Go's memory model, scheduler and runtime; the ownership
+   protocol of page.frontier/children/basepoint (observed by the race detector); the fan-outs in
+   pub and splicer (observed by the race detector).  Only property theorems here. *)
+
+From Servitor Require Import Base Conc.
+From Servitor.Facts Require Import ConcFacts.
+
+(* an accepted program only has disciplined traces: public entry points start and end without the lock (or end holding it exactly through the documented error exit), private methods keep it, goroutines are disciplined threads *)
+Theorem check_sound :
+  forall P : program,
+  lock_check P = true ->
+  (forall (fn : func) (tr : list event) (b : bool),
+  In fn P -> fn_public fn = true -> run_body P (fn_body fn) tr b -> wf_trace P false tr b) /\
+  (forall (fn : func) (tr : list event) (b : bool),
+  In fn P ->
+  fn_public fn = false ->
+  run_body P (fn_body fn) tr b -> b = false /\ wf_trace P true tr true).
+Proof. exact check_sound_fact. Qed.
+Print Assumptions check_sound.
+
+(* goroutine literals, to any depth *)
+Theorem go_sound :
+  forall (P : program) (c : cmd),
+  lock_check P = true ->
+  check_body P PGo c {| held := false; deferred := false |} = true ->
+  forall (tr : list event) (b : bool),
+  run_body P c tr b -> b = false /\ wf_trace P false tr false.
+Proof. exact go_sound_fact. Qed.
+Print Assumptions go_sound.
+
+(* in EVERY reachable state of EVERY interleaving, each state access and each frame is performed by the thread that owns the mutex, no thread locks a mutex it holds, and at most one thread is inside (frames are emitted one at a time) *)
+Theorem safety :
+  forall (P : program) (pool pool' : list thread),
+  lock_check P = true ->
+  initial P pool ->
+  steps P pool pool' ->
+  (forall t : thread,
+  In t pool' ->
+  forall (e : event) (r : list event),
+  t_rest t = e :: r -> e = ETouch \/ e = EOutput \/ e = EUnlock -> t_holds t = true) /\
+  (forall t : thread,
+  In t pool' -> forall r : list event, t_rest t = ELock :: r -> t_holds t = false) /\
+  (forall (pre : list thread) (t : thread) (post : list thread),
+  pool' = pre ++ t :: post ->
+  t_holds t = true -> forallb (fun u : thread => negb (t_holds u)) (pre ++ post) = true).
+Proof. exact safety_fact. Qed.
+Print Assumptions safety.
+
+(* no deadlock while commands succeed: if nobody exited through the error path holding the lock, some thread can always step *)
+Theorem progress :
+  forall (P : program) (pool pool' : list thread),
+  lock_check P = true ->
+  initial P pool ->
+  steps P pool pool' ->
+  (forall fn : func,
+  In fn P -> fn_public fn = false -> exists tr : list event, run_body P (fn_body fn) tr false) ->
+  (exists t : thread, In t pool' /\ t_rest t <> []) ->
+  (forall t : thread, In t pool' -> t_rest t = [] -> t_holds t = false) ->
+  exists pool'' : list thread, step P pool' pool''.
+Proof. exact progress_fact. Qed.
+Print Assumptions progress.
+
+(* the termination side condition of progress is decidable and is re-decided on the translated program *)
+Theorem calls_terminate :
+  forall (P : program) (fuel : nat),
+  lock_check P = true ->
+  calls_terminate P fuel = true ->
+  forall fn : func,
+  In fn P -> fn_public fn = false -> exists tr : list event, run_body P (fn_body fn) tr false.
+Proof. exact calls_terminate_fact. Qed.
+Print Assumptions calls_terminate.
+
+Theorem initial_ok :
+  forall (P : program) (pool : list thread),
+  lock_check P = true -> initial P pool -> pool_ok P pool.
+Proof. exact initial_ok_fact. Qed.
+Print Assumptions initial_ok.
+
+Theorem step_ok :
+  forall (P : program) (a b : list thread),
+  lock_check P = true -> pool_ok P a -> step P a b -> pool_ok P b.
+Proof. exact step_ok_fact. Qed.
+Print Assumptions step_ok.
+
+(* The two statements that had to be corrected while proving (kept as theorems in ConcFacts.v):
+   wf_trace_sem_counterexample - the naive semantic goroutine rule is not derivable for accepted
+   programs; progress_counterexample - without termination of private methods progress fails. *)
+Theorem naive_goroutine_rule_refuted :
+  lock_check cx_P = true /\ ~ wf_trace_sem cx_P true [ESpawn cx_g] true.
+Proof. destruct wf_trace_sem_counterexample as (H1 & _ & _ & H4). split; assumption. Qed.
+Print Assumptions naive_goroutine_rule_refuted.
